@@ -19,6 +19,7 @@ func init() {
 			{ID: "C06.R1", Floor: 3, Run: c06r1, Text: "retire typestate: every call that retires a table (pushes its index to the node's free list) is made on a table known active: dominated by IsActive()/index >= 0 on the same table, or the table was read out of the node's target map in the same function with no retire-capable call in between; otherwise the requirement passes to every caller"},
 			{ID: "C06.R2", Floor: 5, Run: c06r2, Text: "co-updates: the function that pushes to the free list also deletes the map entry and deactivates the table on every path; every caller of it removes the table from the filter cache on every path; the function that pops the free list activates the table and inserts it into the map"},
 			{ID: "C06.R3", Floor: 3, Run: c06r3, Text: "shrink ⇒ zero: every store that does not increase archetype.len lies on paths that also run a zeroing primitive over the table's columns (typed SetZero of every buffer, or the zero-copy over every column of the vacated row); fresh tables (buffers allocated in the same function) are exempt"},
+			{ID: "C06.R5", Floor: 2, Run: c05r8, Text: "children of a dead target can still be moved (= C05.R8): the dead-target panic is never applied to a target inherited from an existing table"},
 			{ID: "C06.R4", Floor: 10, Run: c06r4, Text: "target flag: every function that allocates rows in a table obtained for a (non-constant) target sets targetEntities[target.id] under !target.IsZero(); every function that recycles an entity tests the flag, cleans up the entity's tables and clears it; creation clears the flag of the issued id"},
 		},
 	})
